@@ -22,6 +22,16 @@ CHECKS = {
         technique="runtime monitor: exhaustive sweep of prefix+unit[+s] names through the real lookup/canonicalize against an independent model of the exact/prefix/plural rule",
         text="All ~5.5e5 strings prefix+unit[+s] of the bundled database, and all such strings of generated databases with colliding names, are resolved by the real code and by a Python model; canonical names must denote the same value; a second lookup must agree.",
         note="Unit values and stored prefix order are taken from the loaded database (judged by C08/C12); exhaustive only over the bundled name space."),
+    "C08": dict(
+        category="exploration", design_ref="DESIGN.md §2 C08",
+        technique="runtime invariant monitor over the loaded registry: every stored definition re-evaluated by the real evaluator in its own context and by an independent evaluator; structural invariants; repeated loads compared byte for byte",
+        text="Exhaustive over every entry of the bundled database and of the bundled+currency-snapshot overlay: clean load (no error, no printed diagnostic), stored value = own definition, dimensionalities made of base units, quantity/dimensionality bijection, alias chains, doc/category ownership, identical dumps across reloads.",
+        note="The currency overlay is the repository's snapshot file, not live data; the Python second opinion abstains on float-valued and substance-valued definitions."),
+    "C12": dict(
+        category="exploration", design_ref="DESIGN.md §2 C12",
+        technique="runtime history-invariant monitor: the same definition multiset loaded by the real loader in many orders and file splits; canonical registry dumps compared byte for byte",
+        text="Entry-level permutations of the parsed bundled file (identity, reversal, dependency-reversed, rotations, seeded shuffles), text-level pieces parsed as separate files in shuffled order, and generated databases with deep/wide/diamond dependency graphs shuffled and split into 1..3 files must all load without error into byte-identical databases (prefix order included).",
+        note="Only uniquely named definitions are permuted (duplicates keep relative order, last-wins by design); explores sampled permutations, not all n!."),
 }
 
 PENDING = {}
